@@ -26,7 +26,7 @@ def check(chk, thorough=False):
 
 
 def _gate(fv):
-    conds = [n for n in fv.cfg.nodes if n.kind == 'cond' and norm.atom(n.ast) == ('should_fragment', False)]
+    conds = [n for n in fv.cfg.nodes if n.kind == 'cond' and norm.atom(n.ast) == ('should_fragment', True)]
     return conds
 
 
@@ -72,11 +72,13 @@ def c05a(tree, ob):
         ob.site(FRAG, d[0], 'mtu = route MTU, size = len(bundle)')
     gates = _gate(fv)
     g = one(gates, 'if not should_fragment', ob)
-    tsucc = [s for (s, lab) in g.succ if lab is True][0]
-    if not (tsucc.kind == 'stmt' and isinstance(tsucc.ast, ast.Return) and (tsucc.ast.value is None or (isinstance(tsucc.ast.value, ast.Constant) and not tsucc.ast.value.value))):
+    # (the cond node is the un-negated test: its False edge is the "must not be fragmented" way)
+    tsucc = [s for (s, lab) in g.succ if lab is False][0]
+    if not (tsucc is fv.cfg.exit or (tsucc.kind == 'stmt' and isinstance(tsucc.ast, ast.Return) and
+                                     (tsucc.ast.value is None or (isinstance(tsucc.ast.value, ast.Constant) and not tsucc.ast.value.value)))):
         ob.violate(FRAG, Q, 'if not should_fragment: return', 'a bundle that must not be fragmented does not simply pass through', g.ast)
     else:
-        ob.site(FRAG, tsucc.ast, 'pass-through return')
+        ob.site(FRAG, tsucc.ast or g.ast, 'pass-through return')
     # nothing touched before the decision
     before = [n for n in fv.cfg.nodes if n.kind == 'stmt' and g in fv.cfg.reachable([n]) ]
     for n in before:
